@@ -402,7 +402,12 @@ func _json(args ...interface{}) (interface{}, interface{}) {
 	if len(result) < 1 {
 		return args[0], false
 	}
-	return args[0], result[0]
+	if len(result) == 1 {
+		return args[0], result[0]
+	}
+	// Several matches (a wildcard or a recursive descent after `json()`) stand for the list of
+	// them, as they do for a plain path: picking one would depend on map iteration order.
+	return args[0], result
 }
 
 func xml(args ...interface{}) (interface{}, interface{}) {
